@@ -9,11 +9,11 @@ WT=/tmp/cs/$(basename $SEED)
 rm -rf $WT; git -C /repo worktree prune; git -C /repo worktree add -q --detach $WT HEAD || exit 2
 cd $WT
 cp $SEED/demo_test.go $PKG/$DEMO
-echo "== demo without patch"; go test -vet=off -count=1 -gcflags="all=-N -l" -run 'C[0-9]+|Demo|Seed' ./$PKG/ 2>&1 | grep -E "^(--- FAIL|FAIL|ok|panic)" | head -5
+echo "== demo without patch"; go test -vet=off -count=1 -gcflags="all=-N -l" -run 'C[0-9]+|Demo|Seed|TestDemoC' ./$PKG/ 2>&1 | grep -E "^(--- FAIL|FAIL|ok|panic)" | head -5
 rm $PKG/$DEMO
 git apply $SEED/patch.diff || { echo "PATCH DOES NOT APPLY"; cd /; git -C /repo worktree remove --force $WT; exit 1; }
 echo "== build"; go build ./... 2>&1 | head -5
 echo "== existing tests with patch"; go test -vet=off -count=1 -gcflags="all=-N -l" "$@" 2>&1 | grep -E "^(--- FAIL|FAIL|ok|panic)" | head -20
 cp $SEED/demo_test.go $PKG/$DEMO
-echo "== demo with patch"; go test -vet=off -count=1 -gcflags="all=-N -l" -run 'C[0-9]+|Demo|Seed' ./$PKG/ 2>&1 | grep -E "^(--- FAIL|FAIL|ok|panic)" | head -5
+echo "== demo with patch"; go test -vet=off -count=1 -gcflags="all=-N -l" -run 'C[0-9]+|Demo|Seed|TestDemoC' ./$PKG/ 2>&1 | grep -E "^(--- FAIL|FAIL|ok|panic)" | head -5
 cd /; git -C /repo worktree remove --force $WT
